@@ -382,6 +382,7 @@ class Interp:
         else:
             self.bf = {"v": (spaces[0], comps[0], "v")}
         self._bfjet = {}
+        self._vars = {}
 
     # -- basis functions ---------------------------------------------------------------------
     def basis(self, name, order):
@@ -432,6 +433,14 @@ class Interp:
             return self._const_tensor(val, order)
         if op == "input":
             return self.input_tensor(node[1], order)
+        if op == "var":
+            key = (node[1], order)
+            if key not in self._vars:
+                decl = [v for v in self.form.get("lets", []) if v["name"] == node[1]]
+                if not decl:
+                    raise FormError("unknown variable %s" % node[1])
+                self._vars[key] = self.ev(decl[0]["expr"], order)
+            return self._vars[key]
         if op == "x":
             return t_map(lambda j: j.lower(order), env.geo_jets())
         if op == "jac":
